@@ -66,6 +66,20 @@ func genCase(t *rapid.T) Case {
 			MidMeta: true, MidHeaders: true, AscChurn: true}
 		cd := gen.GenCodecs(t, o)
 		items := gen.GenItems(t, cd, o, uint32(i+1))
+		// the HTTP-TS oracle maps demultiplexed frames back to published messages by content: every frame gets room
+		// for its serial number (tiny frames are the business of C01 / C05)
+		for k := range items {
+			switch items[k].Kind {
+			case "audio":
+				if items[k].ALen < 4 {
+					items[k].ALen = 4
+				}
+			case "video":
+				if n := len(items[k].Nals); n > 0 && items[k].Nals[n-1].Len < 5 {
+					items[k].Nals[n-1].Len = 5
+				}
+			}
+		}
 		c.Incs = append(c.Incs, Inc{Codecs: cd, Items: items})
 	}
 	n := rapid.IntRange(1, 5).Draw(t, "ncons")
